@@ -43,6 +43,7 @@ class MonteCarloSettings:
     def reset_sample_size(self):
         """reset the sample size to default"""
         self.__settings[lit.MONTE_CARLO_SAMPLE_SIZE] = 0
+        self.__evaluator.clear()
 
     @property
     def confidence(self):
